@@ -134,8 +134,10 @@ def norm_snap(snap):
 
 def observe(d):
     hs, he = read_history(d)
+    rd = os.path.join(d, ".renamify")
+    lock_tmp = os.path.isdir(rd) and any(_RE_LOCKTMP.search(f) for f in os.listdir(rd))
     return {"tree": norm_snap(common.snapshot(d)), "hist_state": hs, "hist": he, "lock": lock_state(d),
-            "plans": stored_plans(d)}
+            "plans": stored_plans(d), "lock_tmp": bool(lock_tmp)}
 
 
 # ------------------------------------------------------------------------------------------------
@@ -143,6 +145,7 @@ def observe(d):
 
 _RE_REDO = re.compile(r"(redo|revert)-<ID>-\d+")
 _RE_HISTTMP = re.compile(r"history\.json\.\d+\.tmp$")
+_RE_LOCKTMP = re.compile(r"renamify\.lock\.\d+\.tmp$")
 
 
 def npath(p, old_id):
@@ -152,6 +155,7 @@ def npath(p, old_id):
         p = p.replace(old_id, "<OLD>")
     p = shim.norm_path(p)
     p = _RE_HISTTMP.sub("history.json.PID.tmp", p)
+    p = _RE_LOCKTMP.sub("renamify.lock.PID.tmp", p)
     return _RE_REDO.sub(r"\1-<ID>-<TS>", p)
 
 
@@ -167,8 +171,8 @@ def fine(events, old_id=None):
         islog = shim.is_log_path(e.path)
         if e.op == "write":
             text = "log" if islog else f"write {p}"
-        elif e.op == "rename":
-            text = f"rename {p} {p2}"
+        elif e.op in ("rename", "link"):
+            text = f"{e.op} {p} {p2}"
         elif e.op == "chmod":
             text = f"chmod {p} {e.detail.get('mode', '')}"
         else:
@@ -227,7 +231,7 @@ def shim_view(events, old_id=None):
             if isinstance(x, str) and not x.startswith("ERR:"):
                 if old_id:
                     x = x.replace(old_id, "<OLD>")
-                x = _RE_REDO.sub(r"\1-<ID>-<TS>", _RE_HISTTMP.sub("history.json.PID.tmp", shim.norm_path(x)))
+                x = _RE_REDO.sub(r"\1-<ID>-<TS>", _RE_LOCKTMP.sub("renamify.lock.PID.tmp", _RE_HISTTMP.sub("history.json.PID.tmp", shim.norm_path(x))))
             t2.append(x)
         out.append(tuple(t2))
     return out
@@ -430,10 +434,11 @@ def model_request(sc, plan, pre_tree, inj, order=None, tree_override=None):
 
 def parse_model(line):
     parts = line.split("|")
-    if len(parts) != 6:
+    if len(parts) != 7:
         return None
     out = {"outcome": parts[0], "ops": [x for x in parts[1].split(";") if x],
-           "tree": gen.parse_wire_tree(parts[2]), "hist": parts[3][2:], "lock": parts[4][2:], "stored": parts[5][2:]}
+           "tree": gen.parse_wire_tree(parts[2]), "hist": parts[3][2:], "lock": parts[4][2:], "stored": parts[5][2:],
+           "lock_tmp": parts[6][2:] == "1"}
     return out
 
 
@@ -508,6 +513,8 @@ def compare_state(obs, model, cmd):
         diffs.append(("history", model["hist"], h))
     if obs["post"]["lock"] != model["lock"]:
         diffs.append(("lock", model["lock"], obs["post"]["lock"]))
+    if obs["post"].get("lock_tmp", False) != model.get("lock_tmp", False):
+        diffs.append(("lock_tmp", model.get("lock_tmp"), obs["post"].get("lock_tmp")))
     sf = stored_flag(obs, cmd)
     if sf is not None and sf != model["stored"]:
         diffs.append(("stored_plan", model["stored"], sf))
@@ -525,7 +532,7 @@ def phase_map(groups):
     seen_content = False
     for g in groups:
         op, path, kind = g["op"], g["path"] or "", g["kind"]
-        if path.endswith("renamify.lock"):
+        if "renamify.lock" in path:
             p = "lock"
         elif ".tmpRAND" in path:
             p = "probe"
